@@ -68,6 +68,12 @@ def classify(rec):
     if fid is not None:
         return fid
     pg = rec["program"]
+    if rec["verdict"] == "sql-err":
+        # F27 with a second, bounded take later in the program: classify_common only looks at the LAST OFFSET of the text
+        msg = (rec.get("sqlite") or {}).get("exec_err", "")
+        if 'near "OFFSET"' in msg and re.search(r"(?<!LIMIT \d)(?<!LIMIT \d\d) OFFSET \d+", rec.get("sql") or "") \
+                and any(s.kind == "take" and s.info.get("rng", (None, 0))[1] is None for s in pg.steps):
+            return "F27-offset-without-limit" if rec["target"] == "sql.sqlite" else "oracle-generic-offset"
     sql = rec.get("sql") or ""
     v = rec["verdict"]
     wcols = pg.meta.get("wcols") or {}
@@ -77,27 +83,37 @@ def classify(rec):
         calls = over_clauses(sql, FN_SQL[direct[0]["fn"]])
         if calls and all(c is None for c in calls):
             return "F51-window-fn-as-sort-key"
+    # F52: rows/range with start > end is taken for "argument not given" (whole partition) instead of the empty segment
     # F22: first/last never get a frame clause
-    bad = {n: m for n, m in wcols.items() if m.get("f22")}
-    if bad and v == "rows" and "sqlite_rows" in rec:
-        # the emitted FIRST_VALUE/LAST_VALUE calls carry no frame clause
-        calls = [c for f in ("FIRST_VALUE", "LAST_VALUE") for c in over_clauses(sql, f)]
-        if not calls or any(c is not None and re.search(r"\b(ROWS|RANGE|GROUPS) BETWEEN\b", c) for c in calls):
-            return None
+    for fid, flag in (("F52-empty-frame-range-ignored", "empty"), ("F22-first-last-no-frame", "f22")):
+        bad = {n: m for n, m in wcols.items() if m.get(flag)}
+        if not (bad and v == "rows" and "sqlite_rows" in rec):
+            continue
+        if flag == "f22":
+            # the emitted FIRST_VALUE/LAST_VALUE calls carry no frame clause
+            calls = [c for f in ("FIRST_VALUE", "LAST_VALUE") for c in over_clauses(sql, f)]
+            if not calls or any(c is not None and re.search(r"\b(ROWS|RANGE|GROUPS) BETWEEN\b", c) for c in calls):
+                continue
+        else:
+            # the frame that reached SQL is the whole partition (explicit or elided), not an empty one
+            calls = [c for m in bad.values() for c in over_clauses(sql, FN_SQL[m["fn"]])]
+            if not calls or any(c is not None and re.search(r"BETWEEN (?!UNBOUNDED PRECEDING AND UNBOUNDED FOLLOWING)", c) for c in calls):
+                continue
         consumed = any(m.get("consumed") or _later_text(pg, n) for n, m in bad.items())
         if consumed:
-            return "F22-first-last-no-frame"          # the wrong value feeds a filter / sort / aggregate / expression
+            return fid          # the wrong value feeds a filter / sort / aggregate / expression
         cols = rec.get("sqlite_cols") or []
         names = rec.get("model_names") or []
         if len(cols) != len(names):
-            return None
-        keep = [i for i, c in enumerate(cols) if c not in bad]
+            continue
+        allbad = {n for n, m in wcols.items() if m.get("f22") or m.get("empty")}
+        keep = [i for i, c in enumerate(cols) if c not in allbad]
         if len(keep) == len(cols):
-            return None
+            continue
         a = [[r[i] for i in keep] for r in rec["sqlite_rows"]]
         b = [[r[i] for i in keep] for r in rec["model_rows"]]
         if R.rows_equal(a, b, ordered=False):
-            return "F22-first-last-no-frame"          # every other column agrees
+            return fid          # every other column agrees
     return None
 
 
@@ -140,10 +156,11 @@ def run_stream(ck, stream, cases, targets, sample_every=211):
 
 
 # ------------------------------------------------------------------ case streams
-def directed_cases(ck, n_frames_sample=None):
-    """partition x sort keys x frame x function: every frame (rows and range, bounds {open,-2..2}, rolling 1..3,
-    expanding, none) under every partition/sort mode it is defined for, the 12 functions spread over them
-    (3 per program, all 12 x all frames covered in the thorough tier)."""
+def directed_cases(ck):
+    """partition x sort keys x frame x function, exhaustive in (partition, sort mode, frame): every frame (rows and
+    range with bounds {open,-2..2}, rolling 1..3, expanding, none) under every partition/sort mode it is defined
+    for; 3 functions per program, 2 programs per point in the quick tier (6 of the 12 functions, rotating with
+    the seed), 4 in the thorough tier (all 12 functions x all frames x all modes)."""
     rng = ck.rng
     cases = []
     frames = W.all_frames()
@@ -152,13 +169,9 @@ def directed_cases(ck, n_frames_sample=None):
             fl = [f for f in frames if (f[0] != "range" or W.range_ok(sort))]
             if sort == "none":
                 fl = [f for f in fl if f[0] != "range"]
-            if not ck.thorough:
-                # every frame appears under at least one partition/sort mode per run; unique-key modes get all rows frames
-                keepn = {"id": 1.0, "c": 1.0, "c,id": 0.45, "-id": 0.35, "-c,id": 0.25, "a,-id": 0.25, "a": 0.35, "-c": 0.3, "none": 0.3}[sort]
-                fl = [f for f in fl if rng.random() < keepn * (0.6 if part else 1.0)]
             for fr in fl:
                 proto = W.Case(part, sort, fr, ())
-                reps = 4 if ck.thorough else 1
+                reps = 4 if ck.thorough else 2
                 pool = list(W.FUNCS)
                 rng.shuffle(pool)
                 for rep in range(reps):
@@ -175,7 +188,7 @@ def placement_cases(ck):
     rng = ck.rng
     cases = []
     frames = W.all_frames()
-    n = ck.n(700, 6000)
+    n = ck.n(1500, 8000)
     tries = 0
     while len(cases) < n and tries < n * 30:
         tries += 1
@@ -209,12 +222,12 @@ def f22_cases(ck):
                     continue
                 if sort == "none" and fr[0] == "range":
                     continue
-                if not ck.thorough and rng.random() > 0.25:
+                if not ck.thorough and rng.random() > 0.6:
                     continue
                 proto = W.Case(part, sort, fr, ())
                 fns = tuple(W.pick_fns(rng, proto, ["id", "a", "b", "c", "g"], 1, pool=[f])[0] for f in ("first", "last"))
                 cases.append(W.Case(part, sort, fr, fns, "derive"))
-    for _ in range(ck.n(40, 300)):
+    for _ in range(ck.n(120, 600)):
         sort = rng.choice(["id", "-id", "c,id"])
         fr = rng.choice(frames)
         if fr[0] == "range" and not W.range_ok(sort):
@@ -237,8 +250,6 @@ def sortdirect_cases(ck):
     for f in W.FUNCS:
         for sort in ("id", "none", "-id"):
             for fr in (("none",), ("rows", -1, 0)):
-                if not ck.thorough and rng.random() > 0.35:
-                    continue
                 proto = W.Case(None, "id", fr, ())
                 fns = W.pick_fns(rng, proto, ["id", "a", "b", "c", "g"], 1, pool=[f])
                 c = W.Case(None, sort, fr, fns, "sortdirect")
@@ -246,6 +257,24 @@ def sortdirect_cases(ck):
                     c = W.Case(None, "none", fr, ((fns[0][0], fns[0][1], ("col", None, "c")),), "sortdirect")
                     continue   # unsorted + positional: not deterministic
                 cases.append(c)
+    return cases
+
+
+def empty_range_cases(ck):
+    """rows / range arguments whose start is after their end: the book's meaning is the empty segment"""
+    rng = ck.rng
+    cases = []
+    for kind in ("rows", "range"):
+        for a, b in ((1, 0), (0, -1), (2, -1), (1, -2), (2, 1), (-1, -2)):
+            for part in (None, "g"):
+                for sort in (("id", "c") if kind == "range" else ("id", "-id", "c", "c,id")):
+                    if not ck.thorough and rng.random() > 0.5:
+                        continue
+                    proto = W.Case(part, sort, (kind, a, b), ())
+                    pool = list(W.FUNCS)
+                    rng.shuffle(pool)
+                    fns = tuple(W.pick_fns(rng, proto, ["id", "a", "b", "c", "g"], 1, pool=[f])[0] for f in pool[:3])
+                    cases.append(W.Case(part, sort, (kind, a, b), fns, "derive"))
     return cases
 
 
